@@ -514,10 +514,10 @@ def main(tier='quick', seed=0, repo=None):
     repo = repo or os.environ.get('VERIF_REPO')
     c = corpus()
     probes = c['probes']
-    budget_s = float(os.environ.get('VERIF_BUDGET_S', '900' if tier == 'thorough' else '90'))
+    budget_s = float(os.environ.get('VERIF_BUDGET_S', '900' if tier == 'thorough' else '85'))
     if tier == 'quick':
         n_s1, n_s2, n_s3, s3_slice, instr_frac, sa_frac, max_min = 1600, 800, 24, 400, 0.08, 0.0, 150
-        n_s3g = 72
+        n_s3g = 60
         fr = 0.42
         sweep = (2, 3, 0.33)
     else:
